@@ -9,12 +9,12 @@
   `len − 10·velocity` is a number.
 -/
 import RosuModel.Props.C20
-import RosuModel.Lemmas.FloatModelOrder
+import RosuModel.Lemmas.FloatModelCompare
 namespace Rosu.C20
 open Rosu Rosu.SliderEvents
 
 section Generic
-variable {F : Type} [Scalar F] [FM.IeeeOrd F]
+variable {F : Type} [Scalar F] [FMO.IeeeOrd F]
 
 /-- **ticks_respect_min_distance_strict** from IEEE order: every tick distance is a number, `<= len`, and strictly less than
 `len − 10·velocity` whenever that bound is a number. (If the bound is NaN the guard `d >= bound` is false for every `d` and
@@ -25,8 +25,8 @@ theorem ticks_respect_min_distance_strict_ieee (p : Params F) (fuel : Nat) (ds :
       Scalar.lt d (p.len - p.minDistFromEnd) = true := by
   intro d hd
   obtain ⟨h1, h2⟩ := ticks_respect_min_distance p fuel ds h d hd
-  have hdn := (FM.not_nan_of_le h1).1
-  exact ⟨hdn, h1, FM.lt_of_not_le d _ hdn hb h2⟩
+  have hdn := (FMO.not_nan_of_le h1).1
+  exact ⟨hdn, h1, FMO.lt_of_not_le d _ hdn hb h2⟩
 
 end Generic
 
@@ -35,13 +35,13 @@ theorem orderedFieldLaws_order_float :
     (∀ a b : Float, Scalar.lt a b = true → Scalar.le b a = false) ∧
     (∀ a b c : Float, Scalar.lt a b = true → Scalar.lt b c = true → Scalar.lt a c = true) ∧
     (∀ a b : Float, Scalar.isNaN a = false → Scalar.isNaN b = false → Scalar.le b a = false → Scalar.lt a b = true) :=
-  ⟨FM.not_le_of_lt, FM.lt_trans, FM.lt_of_not_le⟩
+  ⟨FMO.not_le_of_lt, FMO.lt_trans, FMO.lt_of_not_le⟩
 
 /-- `lt_of_not_le` without the non-NaN guard is false for IEEE doubles: `¬ (NaN <= NaN)` and `¬ (NaN < NaN)`. -/
 theorem lt_of_not_le_float_false :
     ¬ (∀ a b : Float, Scalar.le b a = false → Scalar.lt a b = true) := by
   intro h
-  have := h FM.nan64 FM.nan64 (by decide +kernel)
+  have := h FMO.nan64 FMO.nan64 (by decide +kernel)
   revert this
   decide +kernel
 
